@@ -13,6 +13,12 @@ Ops (positional; keys = 64 hex digits; optional client accounts `none` | key; ke
 
 * `ix sys.<Variant> …` / `ix tok.<Variant> …` / `ix ata.<Variant> …` — arguments in the order of the `Ix`
   constructor → `ok <program> <data> <key:s:w,…>`
+* `cpi <exact|more|all|none> <prog>.<Variant> …` — the CPI build with native infos whose runtime flags are the
+  required ones / strictly more / all set / none → `ok <program> <data> <key:s:w,…>`
+* `table id <system|token|ata|rent>` / `table ix <prog>.<Variant>` / `table struct <mint|token>` / `table pod` /
+  `table state` / `table authority` — one entry of `Spl.Generated.*`, in the format in which the harness reports
+  the same entry from the compiled code (discriminant bytes, borsh layout probe, meta layout probe,
+  `offset_of!` / `size_of`, tags, enum encodings)
 * `mint <owner> <image>` / `token <owner> <image>` → `ok <fields>` | `err:<class>`
 * `vmint <owner> <image> <decimals|any> <authority|any> <any|none|freeze key>` /
   `vtoken <owner> <image> <mint|any> <owner|any>` — `validate()?; validate_mint/validate_token(arg)` →
@@ -150,12 +156,111 @@ def showMint (m : Mint) : String :=
 def showToken (t : TokenAcc) : String :=
   s!"ok mint={toHex t.mint} owner={toHex t.owner} amount={t.amount} delegate={showOptKey t.delegate} state={t.state} native={showOptNum t.isNative} delegated={t.delegatedAmount} close={showOptKey t.closeAuthority}"
 
+/-- Declared (= required) flags of the slot `n` of `ix`. -/
+def requiredFlags (ix : Ix) (n : AName) : Bool × Bool :=
+  match assoc n ix.tag.accounts with
+  | some (.info s w) => (s, w)
+  | some (.rest s w) => (s, w)
+  | _ => (false, false)
+
+/-- The runtime flags the harness gives the info of each slot in each mode. -/
+def runtimeFlags (mode : String) (ix : Ix) : Option (AName → Nat → Bool × Bool) :=
+  if mode = "exact" then some (fun n _ => requiredFlags ix n)
+  else if mode = "more" then
+    some (fun n _ => if requiredFlags ix n = (false, false) then (true, true) else requiredFlags ix n)
+  else if mode = "all" then some (fun _ _ => (true, true))
+  else if mode = "none" then some (fun _ _ => (false, false))
+  else none
+
+/-! ### `table …`: entries of the generated tables -/
+
+/-- constructor name of an enumeration value (`Spl.FName.amount` → `amount`) -/
+def ctorName {α : Type} [Repr α] (x : α) : String :=
+  ((toString (repr x)).splitOn ".").getLastD ""
+
+def joinOr (l : List String) : String := if l.isEmpty then "-" else ",".intercalate l
+
+/-- width of a field's borsh encoding under the probe (optional keys present) -/
+def probeWidth : ArgTy → Nat
+  | .u8 => 1 | .u64 => 8 | .pubkey => 32 | .optPubkey => 33 | .authorityType => 1
+
+def showArgLayout : List (FName × ArgTy) → Nat → List String
+  | [], _ => []
+  | (n, ty) :: fs, off => s!"{ctorName n}@{off}+{probeWidth ty}" :: showArgLayout fs (off + probeWidth ty)
+
+def argsLen (fs : List (FName × ArgTy)) : Nat := (fs.map (fun f => probeWidth f.2)).sum
+
+/-- the probe passes two signers -/
+def slotCount : AcctTy → Nat
+  | .rest _ _ => 2 | _ => 1
+
+def showAcctLayout : List (AName × AcctTy) → Nat → List String
+  | [], _ => []
+  | (n, ty) :: fs, idx =>
+    (match ty with
+      | .info s w => s!"{ctorName n}@{idx}:{showBool s}:{showBool w}"
+      | .sysvarRent => s!"{ctorName n}@{idx}:0:0={toHex Generated.rentSysvarId}"
+      | .program p => s!"{ctorName n}@{idx}:0:0={toHex (progId p)}"
+      | .rest s w => s!"{ctorName n}@{idx}+2:{showBool s}:{showBool w}") :: showAcctLayout fs (idx + slotCount ty)
+
+def tagOfName (name : String) : Option IxTag :=
+  IxTag.all.find? (fun t =>
+    (match t with
+      | .sys i => "sys." ++ i.name
+      | .tok i => "tok." ++ i.name
+      | .ata i => "ata." ++ i.name) == name)
+
+def showStructLayout : List (SName × STy) → Nat → List String
+  | [], _ => []
+  | (n, ty) :: fs, off => s!"{ctorName n}@{off}+{ty.size}" :: showStructLayout fs (off + ty.size)
+
+/-- offset of the tag / of the value inside `PodOption<T>` (`size_of::<T>() = v`), tag width -/
+def podLayout (v : Nat) : List PodPart → Nat → (Int × Nat × Int) → (Int × Nat × Int)
+  | [], _, acc => acc
+  | .tag n :: ps, off, (_, _, val) => podLayout v ps (off + n) (Int.ofNat off, n, val)
+  | .value :: ps, off, (tag, w, _) => podLayout v ps (off + v) (tag, w, Int.ofNat off)
+
+/-- entries by name: declaration order is not a table value -/
+def sortStrs (l : List String) : List String := (l.toArray.qsort (· < ·)).toList
+
+def tableOp : List String → String
+  | ["id", "system"] => s!"ok {toHex Generated.systemId}"
+  | ["id", "token"] => s!"ok {toHex Generated.tokenId}"
+  | ["id", "ata"] => s!"ok {toHex Generated.ataId}"
+  | ["id", "rent"] => s!"ok {toHex Generated.rentSysvarId}"
+  | ["ix", name] =>
+    match tagOfName name with
+    | none => "bad-op"
+    | some t =>
+      let metas := (t.accounts.map (fun a => slotCount a.2)).sum
+      s!"ok program={toHex (progId t.prog)} disc={toHex (leN t.reprBytes t.disc)} datalen={t.reprBytes + argsLen t.fields} args={joinOr (showArgLayout t.fields 0)} metas={metas} accts={joinOr (showAcctLayout t.accounts 0)}"
+  | ["struct", "mint"] =>
+    s!"ok size={structSize Generated.mintFields} len={Generated.mintLen} fields={joinOr (showStructLayout Generated.mintFields 0)}"
+  | ["struct", "token"] =>
+    s!"ok size={structSize Generated.tokenFields} len={Generated.tokenLen} fields={joinOr (showStructLayout Generated.tokenFields 0)}"
+  | ["pod"] =>
+    let l := podLayout 32 Generated.podOptionLayout 0 (-1, 0, -1)
+    s!"ok size32={podSize 32} size8={podSize 8} tag@{l.1}+{l.2.1} value@{l.2.2} none={toHex Generated.podNone} some={toHex Generated.podSome}"
+  | ["state"] => "ok " ++ ",".intercalate (sortStrs (Generated.accountStateDiscs.map (fun d => s!"{d.1}={d.2}")))
+  | ["authority"] =>
+    "ok " ++ ",".intercalate
+      (sortStrs (Generated.AuthorityType.all.map (fun a => s!"{a.name}={toHex (leN 1 a.idx)}")))
+  | _ => "bad-op"
+
 def step (_ : Unit) (toks : List String) : Unit × String :=
   let out :=
     match toks with
     | "ix" :: rest =>
       match parseIx rest with
       | some ix => s!"ok {toHex (fwProgram ix)} {toHex (fwData ix)} {showMetas (fwMetas ix)}"
+      | none => "bad-op"
+    | "table" :: rest => tableOp rest
+    | "cpi" :: mode :: rest =>
+      match parseIx rest with
+      | some ix =>
+        match runtimeFlags mode ix with
+        | some rt => s!"ok {toHex (cpiProgram ix)} {toHex (cpiData ix)} {showMetas (cpiMetas rt ix)}"
+        | none => "bad-op"
       | none => "bad-op"
     | ["mint", owner, image] =>
       match pKey owner, parseHex image with
